@@ -73,6 +73,14 @@ func (fr *frame) doCall(c *ssa.CallCommon, args []SV, cur *State, instr *ssa.Cal
 			return fr.opaque(key, c, args, cur, rtyp, false)
 		}
 	}
+	// a closure literal called directly (go/defer of func() {...}): inline with its captured variables
+	if mc, ok := c.Value.(*ssa.MakeClosure); ok && !c.IsInvoke() {
+		fv := fr.val(mc)
+		if fv.fn != nil && len(fv.fn.Blocks) > 0 && !hasLoops(fv.fn) && fr.depth < maxInlineDepth {
+			return fr.inline(fv.fn, args, fv.bnd, cur, rtyp)
+		}
+		return fr.opaque("func-value", c, args, cur, rtyp, false)
+	}
 	// closures / function values
 	if callee == nil && !c.IsInvoke() {
 		fv := fr.val(c.Value)
@@ -242,6 +250,10 @@ func (fr *frame) opaque(key string, c *ssa.CallCommon, args []SV, cur *State, rt
 		}
 		if !vc.eng.ghostSafe(key) && !external {
 			for _, k := range names {
+				if fr.keptGhost(k) {
+					vc.assumes["opaque callees of this function keep ghost "+k+" (contract clause `keeps`)"] = true
+					continue
+				}
 				cur.heaps[k] = vc.fresh("hv_"+k, vc.heapSort[k])
 			}
 		}
@@ -264,6 +276,20 @@ func (fr *frame) opaque(key string, c *ssa.CallCommon, args []SV, cur *State, rt
 		vals = append(vals, SV{t: r, typ: rt})
 	}
 	return tupleOrSingle(rtyp, vals)
+}
+
+// keptGhost: the contract of the function under verification says its opaque callees do not touch this ghost.
+func (fr *frame) keptGhost(g string) bool {
+	con := fr.vc.con
+	if con == nil {
+		return false
+	}
+	for _, p := range con.Keeps {
+		if strings.HasPrefix(g, ghostName(p)) {
+			return true
+		}
+	}
+	return false
 }
 
 var errCtor = regexp.MustCompile(`(^|[./])(Err[A-Z]\w*|NewError\w*|newError\w*|AppendMsgToErr)$`)
@@ -347,7 +373,11 @@ func (fr *frame) applyContract(con *Contract, key string, args []SV, cur *State,
 	for _, cl := range con.Clauses {
 		if cl.Kind == "requires" {
 			i++
-			vc.oblige("pre", fmt.Sprintf("%s.pre%d", tag, i), fr.g, vc.evalGoal(cl.Expr, env))
+			o := vc.oblige("pre", fmt.Sprintf("%s.pre%d", tag, i), fr.g, vc.evalGoal(cl.Expr, env))
+			if fr.top {
+				cle := cl.Expr
+				vc.knownSibling(o, fmt.Sprintf("%s.pre%d", tag, i), fr.g, func() T { return vc.evalGoal(cle, env) })
+			}
 		}
 	}
 	for _, inv := range vc.invariantsOf(con) {
@@ -372,6 +402,21 @@ func (fr *frame) applyContract(con *Contract, key string, args []SV, cur *State,
 		fr.strengthen(and(noPanic...))
 	}
 	// havoc modifies
+	if con.ModAll {
+		for _, a := range args {
+			fr.havocReferent(a, cur)
+		}
+		var names []string
+		for k := range vc.ghost {
+			names = append(names, k)
+		}
+		sort.Strings(names)
+		for _, k := range names {
+			if !fr.keptGhost(k) {
+				cur.heaps[k] = vc.fresh("hv_"+k, vc.heapSort[k])
+			}
+		}
+	}
 	for _, cl := range con.Clauses {
 		if cl.Kind != "modifies" {
 			continue
@@ -502,6 +547,11 @@ func (fr *frame) builtin(b *ssa.Builtin, c *ssa.CallCommon, args []SV, cur *Stat
 		return fr.copyOp(args, cur, rtyp)
 	case "delete":
 		return fr.mapDelete(args, cur)
+	case "recover":
+		// deferred functions are executed on the normally returning paths only (a panic ends a path), where
+		// recover() returns nil
+		fr.vc.assumes["recover() yields nil: deferred functions are followed on non-panicking paths only"] = true
+		return SV{t: "(mk_iface 0 0)", typ: rtyp}
 	case "print", "println":
 		return SV{t: "0", typ: rtyp}
 	}
